@@ -392,14 +392,15 @@ printf("\n");
             }
             break;
           case OP_BIT_ADDR:
-            if (operands[r].type != OPERAND_BIT_ADDRESS)
+            // This seems kind of invalid, but some other assembler allows
+            // the bit address to be defined as the binary version of the
+            // address rather than address.bit for at least clr and setb.
+            if (operands[r].type != OPERAND_BIT_ADDRESS &&
+                operands[r].type != OPERAND_NUM)
             {
-              // This seems kind of invalid, but some other assembler allows
-              // the bit address to be defined as the binary version of the
-              // address rather than address.bit for at least clr and setb.
-              if (operands[r].type != OPERAND_NUM) { r = 4; }
+              r = 4;
             }
-
+              else
             if (operands[r].value < 0 || operands[r].value > 255) { r = 4; }
             break;
           case OP_PAGE:
